@@ -352,6 +352,9 @@ func RunC13(c *core.Ctx) {
 				if c.Quick() && (ki+pi+ai)%3 != 0 && !(pi == 2 && ai == 0) {
 					continue
 				}
+				// thorough tier: every bit of every byte for a third of the (key, payload, AAD) combinations, one bit per byte
+				// for the others (every combination with all bits is a couple of million signature verifications: hours)
+				allBits = !c.Quick() && (ki+pi+ai)%3 == 0
 				for _, det := range []bool{false, true} {
 					h, err := signHonest(k, pl, aad, det)
 					if err != nil {
